@@ -130,6 +130,25 @@ def run(tier):
         rows.update(r2)
         crashed += c2
     run.extra["processor_count_variants"] = ["GOMAXPROCS=3", "affinity 5 cpus", "GOMAXPROCS=7 on 12 cpus"]
+    # a platform whose int has 32 bits (the same driver built with GOARCH=386): constructor and transforms up to 2^12 points
+    try:
+        hz386 = vlib.go_build(goarch="386")
+        ok386 = vlib.can_run_386(hz386)
+    except vlib.InfraError:
+        ok386 = False
+    run.extra["int32_platform_pass"] = bool(ok386)
+    if ok386:
+        sub = []
+        for j in list(tj):
+            if j.get("envlabel"):
+                continue
+            if (j["kind"] == "new" and -2 <= j["N"] <= 300) or (j["kind"] == "new" and j["N"] > 1000 and j["N"] < (1 << 22)) or (j["kind"] in ("impulse", "tone", "inv", "wronglen") and j["N"] <= 4096 and (j["kind"] == "inv" or j.get("j", 0) % 3 == 0)):
+                jid += 1
+                sub.append(dict(j, id=jid, envlabel="GOARCH=386"))
+        tj += sub
+        r3, c3 = vlib.run_hz_jobs(hz386, "fft", sub, nproc=4, timeout=3000)
+        rows.update(r3)
+        crashed += c3
     if crashed:
         c = crashed[0]
         run.violation({"kind": "crash", "job": json.dumps(c["first_missing"])[:200]}, {"job": c["first_missing"], "stderr": c["stderr"][-1500:]})
@@ -166,7 +185,9 @@ def replay(path):
     rp = json.load(open(path))["replay"]
     hz = vlib.go_build()
     lab = (rp.get("job") or {}).get("envlabel", "")
-    env, ts = ({"GOMAXPROCS": "3"}, None) if lab == "GOMAXPROCS=3" else (None, "0-4") if lab == "5 cpus" else ({"GOMAXPROCS": "7"}, "0-11") if lab else (None, None)
+    if lab == "GOARCH=386":
+        hz = vlib.go_build(goarch="386")
+    env, ts = ({"GOMAXPROCS": "3"}, None) if lab == "GOMAXPROCS=3" else (None, "0-4") if lab == "5 cpus" else ({"GOMAXPROCS": "7"}, "0-11") if lab == "GOMAXPROCS=7" else (None, None)
     rows, crashed = vlib.run_hz_jobs(hz, "fft", [rp["job"]], nproc=1, env=env, taskset=ts)
     print(json.dumps(list(rows.values()))[:3000])
     print("why:", rp.get("why"), rp.get("event"))
